@@ -14,6 +14,11 @@ CHECKS = {
    technique="deterministic simulation: seeded cooperative scheduler parks packs inside their consume callbacks (overlap/nesting of pooled state); dns.Msg.Pack as reference",
    text="Seeded search over per-task pack operations and schedules: packs overlap and nest while sharing the pool; each pack is compared byte-for-byte with the library, the message is compared with a snapshot, buffers are checked for aliasing and exposed capacity, and declined messages must have produced no output. Byte parity over all message structures is sampled only.",
    note="Trusts miekg/dns Pack as the reference and the message generator's reach; overlap happens only at the consume callback."),
+ "C09": dict(
+   level="fault_enumeration", design="§3 C09",
+   technique="deterministic simulation: real Resolver/AutoTA on fake clock (synctest) + simulated network and disk; per-history enumeration of crash points and disk errors; RFC 5011 reference state machine as oracle",
+   text="Each generated root DNSKEY publication history (20-200 fake days, restarts, disk events) runs fault-free against an independent RFC 5011 state machine with exact comparison of the live trust set after every refresh; then the disk operations of its state-changing refreshes (revocations first) are failed (EIO/ENOSPC/short write/failing sync/failing rename) and crashed (volatile state lost/kept/torn) one at a time, re-running the history with relaxed-but-narrow invariants (never-early, revoked-never-again, fail-closed). Quick tier rotates one fault kind per operation over 1-2 refreshes per history; thorough tries every kind over up to 4.",
+   note="Trusts the reference state machine, simdisk's durability model (content durable at Sync, directory entries durable at directory Sync) and the 2-minute tolerance band at hold-down boundaries. The middleware chain is an empty pipeline; only the resolver runs."),
 }
 
 NOT_APPLICABLE = {
